@@ -680,23 +680,36 @@ def heapq_layout_class(chk, R, count):
     import heapq
     import subprocess
     from gradysim.simulator.event import Event
+    try:
+        # (Event is a value class of the library, not documented API: if it can no longer be built or compared this way the class
+        # is left out -- the event-loop classes, which use the documented API only, carry the tie)
+        probe = [Event(timestamp=1.0, callback=None, context="", sequence=1), Event(timestamp=1.0, callback=None, context="", sequence=0)]
+        heapq.heapify(probe)
+        _ = (probe[0].sequence, probe[0].timestamp)
+    except Exception as exc:
+        chk.record("heapq-layout-skipped", {"reason": "Event(timestamp, callback, context, sequence) unusable: %s" % type(exc).__name__}, False)
+        return
     cases = []
-    for k in range(count):
-        ops, heap, layouts, n, pops = [], [], [], 0, []
-        span = R.choice([1, 2, 3, 5, 40])
-        for _ in range(R.randint(1, 60 if k % 10 else 400)):
-            if R.random() < 0.62 or not heap:
-                ts = R.randint(0, span)
-                ops.append(ts)
-                heapq.heappush(heap, Event(float(ts), None, "", n))
-                n += 1
-            else:
-                ops.append(None)
-                e = heapq.heappop(heap)
-                pops.append((e.timestamp, e.sequence, sorted((x.timestamp, x.sequence) for x in heap + [e])[0]))
-            layouts.append([e.sequence for e in heap])
-        cases.append((ops, layouts, pops))
-        chk.record("heapq-layout", {"ops": len(ops), "span": span}, True)
+    try:
+        for k in range(count):
+            ops, heap, layouts, n, pops = [], [], [], 0, []
+            span = R.choice([1, 2, 3, 5, 40])
+            for _ in range(R.randint(1, 60 if k % 10 else 400)):
+                if R.random() < 0.62 or not heap:
+                    ts = R.randint(0, span)
+                    ops.append(ts)
+                    heapq.heappush(heap, Event(timestamp=float(ts), callback=None, context="", sequence=n))
+                    n += 1
+                else:
+                    ops.append(None)
+                    e = heapq.heappop(heap)
+                    pops.append((e.timestamp, e.sequence, sorted((x.timestamp, x.sequence) for x in heap + [e])[0]))
+                layouts.append([e.sequence for e in heap])
+            cases.append((ops, layouts, pops))
+            chk.record("heapq-layout", {"ops": len(ops), "span": span}, True)
+    except Exception as exc:
+        chk.record("heapq-layout-skipped", {"reason": "heapq over Event objects raised %s" % type(exc).__name__}, False)
+        return
     def lit(c):
         ops, layouts, _ = c
         return "([%s], [%s])" % ("; ".join("None" if o is None else "Some %d%%Z" % o for o in ops),
